@@ -240,18 +240,18 @@ ExpandOne(f) ==
         \* an untypable string denotes nothing.  (The code falls back to Sid(whole string), whose
         \*  query is then applied to EMPTY fields, so 'junk?project=hamlet' unfolds to the Sid
         \*  'hamlet': finding F19.)
-        IN IF rt.type = "" \/ ts = {} THEN [err |-> "", res |-> {}]
-           ELSE [err |-> "", res |-> {MkTyped(i, f.segs, f.pairs) : i \in ts}]
-     ELSE IF Cardinality(inner) > 1 THEN [err |-> "spil", res |-> {}]
+        IN IF rt.type = "" \/ ts = {} THEN [err |-> "", res |-> {}, untyped |-> {f.segs}]
+           ELSE [err |-> "", res |-> {MkTyped(i, f.segs, f.pairs) : i \in ts}, untyped |-> {}]
+     ELSE IF Cardinality(inner) > 1 THEN [err |-> "spil", res |-> {}, untyped |-> {}]
      ELSE LET p == CHOOSE p \in inner : TRUE
               rt == ResolveFirst(SubSeq(f.segs, 1, p - 1))
-          IN IF rt.type = "" THEN [err |-> "spil", res |-> {}]
+          IN IF rt.type = "" THEN [err |-> "spil", res |-> {}, untyped |-> {}]
              ELSE LET lk == LeafKeyOf(BaseOfName(rt.type))
                       leafT == {i \in TIdx : LastKey(i) = lk}
                       cur == Len(f.segs) - 1
                       need(i) == IF Len(Templates[i].ph) - cur < 0 THEN 0 ELSE Len(Templates[i].ph) - cur
                       tests == {Fill(f.segs, p, need(i)) : i \in leafT}
-                  IN [err |-> "", res |-> UNION {{MkTyped(i, t, f.pairs) : i \in {j \in AllTypesOf(t) : LastKey(j) = lk}} : t \in tests}]
+                  IN [err |-> "", untyped |-> {}, res |-> UNION {{MkTyped(i, t, f.pairs) : i \in {j \in AllTypesOf(t) : LastKey(j) = lk}} : t \in tests}]
 \* A search whose query could not be applied is left alone (it is pruned afterwards): narrowing
 \* must not re-apply the user's query, or its optional value would override the user's filter
 \* (finding F18: 'hamlet/**?type=a' used to return the shot searches as well).
@@ -266,6 +266,31 @@ Unfold(search) ==
      ELSE LET nar == {NarrowOne(s) : s \in UNION {e.res : e \in ex}}
               ok == {x \in nar : x.type # "" /\ x.q = <<>>}
           IN [err |-> "", res |-> {[type |-> x.type, segs |-> DVals(x.fields)] : x \in ok}]
+
+(* The two flags of unfold_search (not part of C07's statement, part of the call alphabet of C13): *)
+\* do_extrapolate: the extrapolate unfolder runs BEFORE the pruning, on the STRING of every unfolded form (typed or
+\* not, query applied or not): the string itself and each of its '/'-prefixes are turned into Sids again - so every
+\* result is typed naturally from its string (a forced type is lost, a still unapplied query is applied again to the
+\* natural type) - and then untyped and unapplied ones are pruned
+UnfoldExtrapolated(search) ==
+  LET ex == {ExpandOne(f) : f \in Flat(search)} IN
+  IF \E e \in ex : e.err # "" THEN [err |-> "spil", res |-> {}]
+  ELSE LET nar == {NarrowOne(x) : x \in UNION {e.res : e \in ex}}
+           again(x) == IF x.q = <<>> THEN ApplyQueryB(ResolveFirst(DVals(x.fields)), <<>>)
+                       ELSE ApplyQueryB(ResolveFirst(DVals(x.fields)), x.q)
+           strs == {DVals(x.fields) : x \in nar} \cup UNION {e.untyped : e \in ex}
+           pref == UNION {{SubSeq(q, 1, n) : n \in 1..(Len(q) - 1)} : q \in strs}
+           all == {again(x) : x \in nar} \cup {ApplyQueryB(ResolveFirst(p), <<>>) : p \in pref}
+       IN [err |-> "", res |-> {[type |-> y.type, segs |-> DVals(y.fields)] : y \in {z \in all : z.type # "" /\ z.q = <<>>}}]
+\* do_uniquify: one typed search per string - the first in the result order (string, then uri, i.e. type name)
+RECURSIVE StrLessAscii(_, _)
+StrLessAscii(a, b) == IF a = "" THEN b # "" ELSE IF b = "" THEN FALSE
+                      ELSE LET ca == Raw.charcode[SubSeq(a, 1, 1)]  cb == Raw.charcode[SubSeq(b, 1, 1)]
+                           IN IF ca # cb THEN ca < cb ELSE StrLessAscii(SubSeq(a, 2, Len(a)), SubSeq(b, 2, Len(b)))
+UnfoldUniquified(search) ==
+  LET u == Unfold(search) IN
+  IF u.err # "" THEN u
+  ELSE [err |-> "", res |-> {x \in u.res : \A y \in u.res : (y.segs = x.segs /\ y.type # x.type) => StrLessAscii(x.type, y.type)}]
 
 (* Declarative denotation of a search, written from the property text (C07): *)
 (* alternatives distributed, aliases replaced, '**' = any number of '*'      *)
